@@ -249,6 +249,48 @@ func TestC09Truthiness(t *testing.T) {
 	}
 }
 
+// ---- non-nil pointers: "everything else is truthy" ------------------------------------------------------
+
+type C09PtrCase struct {
+	X    *E  `json:"x"` // a pointer description (non-nil)
+	Form int `json:"form"`
+}
+
+var c09PtrForms = [][2]string{{"{% if x %}T{% else %}F{% endif %}", "T"}, {"{{ x ? 'T' : 'F' }}", "T"}, {"{{ not x ? 'T' : 'F' }}", "F"},
+	{"{% if false %}A{% elseif x %}B{% else %}D{% endif %}", "B"}, {"{{ (x and true) ? 'T' : 'F' }}", "T"}, {"{{ (x or false) ? 'T' : 'F' }}", "T"}}
+
+// checkC09Ptr: the falsy values are listed (false, 0, '', null, empty list, empty map); a non-nil
+// pointer is none of them, whatever it points to.
+func checkC09Ptr(c C09PtrCase) error {
+	f := c09PtrForms[c.Form%len(c09PtrForms)]
+	var ctx Ctx
+	ctx.Set("x", c.X)
+	r := render1(f[0], zooCtx(ctx, 0))
+	if r.Failed() || r.Out != f[1] {
+		return fmt.Errorf("%s with x = %s (a non-nil pointer): %v, want %s", q(f[0]), PrintE2(c.X), r, q(f[1]))
+	}
+	return nil
+}
+
+func TestC09Pointers(t *testing.T) {
+	r := NewRec(t, "C09", "exhaustive: non-nil pointers to false, true, 0, 5, 0.0, '', 'a', an empty and a non-empty []int, an empty and a non-empty map, a struct x {if, ?:, not, elseif, and, or}; oracle: truthy; non-trivial = the pointee is itself falsy")
+	defer r.Flush()
+	r.SetExhaustive()
+	ptrs := []*E{ZPtr(Bool(false)), ZPtr(Bool(true)), ZPtr(Int(0)), ZPtr(Int(5)), ZPtr(ZT(Int(0), "float64")), ZPtr(Str("")), ZPtr(Str("a")), ZPtr(ZT(List(), "[]int")), ZPtr(ZT(List(Int(1)), "[]int")),
+		ZPtr(ZT(Hash(nil, nil), "map[string]int")), ZPtr(ZT(Hash([]string{"k"}, []*E{Int(1)}), "map[string]int")), ZT(Hash([]string{"Name"}, []*E{Str("")}), "ptrstruct")}
+	for pi, p := range ptrs {
+		for fi := range c09PtrForms {
+			c := C09PtrCase{X: p, Form: fi}
+			r.Case(fmt.Sprint(pi, fi), pi%2 == 0 || pi == 11, c09PtrForms[fi][0]+" with x="+PrintE2(p))
+			if err := checkC09Ptr(c); err != nil {
+				r.FailEnum(t, "C09.ptr", c, err)
+			}
+		}
+	}
+}
+
+func init() { reg("C09.ptr", checkC09Ptr) }
+
 // TestC09Loops enumerates loop counters over every length 0..14 for lists, strings and
 // ranges, alone and around an inner loop.
 func TestC09Loops(t *testing.T) {
